@@ -73,6 +73,28 @@ CLAIMED = {
          "set, scales best and soft optima, leaves gamma unchanged. Tie: the relations are checked on the implementation for continua beyond the "
          "oracle (2x60, 3x15, 5x5) with float32-exact transformations, and seeded gamma under delta_empty scaling.",
          TB + "Implementation-only metamorphic comparison; tolerance 2^-15."),
+ "C03": ("4/C03", "definition / slot-order / cached-value theorems + comparison of the four observation points with exact sums",
+         "Theorems: the pair loop is the sum over the C(n,2) unordered annotator pairs; slots are placed by annotator rank so the listing order is "
+         "irrelevant (row_of_ntuple_perm); annotator order irrelevant for symmetric costs; cached disorder = recomputed one; the faithful model of "
+         "UnitaryAlignment.compute_disorder is REFUTED (definition x n/k with empty slots: known finding, pinned by a test). Tie: Alignment.disorder, "
+         "[u.disorder], Alignment.compute_disorder, UnitaryAlignment.compute_disorder on best / soft / fast and hand-built alignments (shuffled "
+         "slots, with / without continuum) against the extracted model's exact sums within 2^-15.",
+         TB + "Pair costs are those of d() (C04)."),
+ "C05": ("4/C05", "theorems on the sampling rule and on gamma + recorded compute_gamma runs judged by the model and the verified checkers",
+         "Theorems: total = max(n_samples, N_required), no extra sample without precision, second batch iff needed, N_required is the exact ceiling of "
+         "conf^2 Var / (mean^2 p^2), gamma <= 1, gamma = 1 when observed is 0, identical annotations have a zero-cost partition hence optimum 0. "
+         "Tie: compute_gamma over modes x samplers x precision x n_samples x ground-truth subsets with the sampler recorded: sample count equals the "
+         "extracted rule evaluated exactly on the library's chance disorders, one fresh sample per chance alignment in draw order, chance "
+         "alignments judged by the verified partition / cover checkers against their own continua, observed / expected / gamma recomputed.",
+         TB + "Validity and laws of the samples themselves are C15 / C16; constants re-read from the source each run."),
+ "C10": ("4/C10", "termination / partition theorems over an oracle window optimiser + per-iteration trace validation",
+         "Theorems: windows consist of remaining units; the unrepaired step can stall (refutation witness = the defect that was fixed); the repaired "
+         "step always removes a unit, so the loop terminates within #units iterations for every window size and oracle; taken + remaining always "
+         "partition the original units; the chosen tuples come from the window's alignment and are all of it when every tuple ends before the limit. "
+         "Tie: get_fast_alignment under a watchdog with get_first_window / window alignments recorded; the extracted model replays the loop and "
+         "window, limit, chosen tuples and final alignment must coincide at every iteration; oracle answers and the result judged by the verified "
+         "partition checker; disorder vs exact sums; >= best, = best on a full window; job dispatch of fast-mode gamma observed.",
+         TB + "The window optimiser is an oracle (judged by C01/C02); the cost estimate of measure_best_window_size is not modelled."),
 }
 
 checks = []
